@@ -112,7 +112,8 @@ def eval_move(toks, state):
     """move <kinds csv> SEQ <frozen> <seed> <cached 0|1> [i j]"""
     from localcider.backend.sequence import Sequence
     kinds = toks[1].split(",")
-    seq, frozen, seed, cached = toks[2], frozen_of(toks[3]), int(toks[4]), toks[5] == "1"
+    seq, frozen, seed, cached = toks[2], frozen_of(toks[3]), int(toks[4]), toks[5] in ("1", "2")
+    via_kappa = toks[5] == "2"      # warm the cache through kappa() instead of deltaMax()
     extra = toks[6:]
     install(seed)
     if kinds == ["api_shuffle"]:
@@ -141,7 +142,12 @@ def eval_move(toks, state):
         return ("moves", [("shuffle", seq, child.get_sequence(), list(RecordingRandom.TAPE), bad)])
     obj = Sequence(seq)
     if cached:
-        obj.deltaMax()
+        if via_kappa:
+            import io, contextlib
+            with contextlib.redirect_stdout(io.StringIO()):
+                obj.kappa()
+        else:
+            obj.deltaMax()
     steps = []
     for kind in kinds:
         before = obj.seq
